@@ -301,6 +301,9 @@ def run_c08(ctx, fa):
                 "with default, change namespace} and incompatible {add field without default, demote, remove symbol without default, change fixed "
                 "size, rename without alias, narrow union, change kind}; schemaless_reader(fo, w, r) and reader(fo, reader_schema=r); 0 steps = reader "
                 "equal to the writer as a separate object; non-trivial = reader differs from writer")
+    if not ctx.quick():
+        from . import p_suite
+        p_suite.run(ctx, {"t_sl_read"}, ("C08.",))
     core.judge_cases(ctx, cases, "resolve", ("C08.",), nontrivial_fn=lambda c: bool(c["steps"]), sig_fn=sig_c08,
                      describe=lambda c: "steps=%s w=%s r=%s" % (c["steps"], repr(proj.unpj(c["w"]))[:120], repr(proj.unpj(c["r"]))[:120]))
     for c in cases[:3]:
